@@ -34,9 +34,13 @@ POOL = {
     "q_in_desc": "Feature: f\n  \\\"\\\"\\\" desc \\`\\`\\`\n  Scenario: s\n    Given x\n      \"\"\"\n        \\\"\\\"\\\"\n      \"\"\"\n",
     "tagws": "Feature: f\n  @a b\n  Scenario: s\n",
     "outline": "@f\nFeature: f\n  Background:\n    Given b\n  @s\n  Scenario Outline: o <a>\n    And <a>\n      | <a> |\n    @e\n    Examples:\n      | a |\n      | 1 |\n      | 2 |\n",
+    "ragged_then_tags": "Feature: f\n Scenario: s\n  Given x\n   | a | b |\n   | c |\n @t\n\n # c\n Scenario: t\n  Given y\n",
+    "cap_in_docstring": "Feature: f\n" + "".join(" bad %d\n Scenario: s\n" % i for i in range(10)) + "  Given x\n   \"\"\"\n   never closed\n",
+    "doc_q": "Feature: f\n Scenario: s\n  Given x\n   \"\"\"md\n    body\n   \"\"\"\n  And y\n   | a |\n",
+    "doc_b": "Feature: f\n Background:\n  Given x\n    ```\n    body\n    ```\n Scenario: s\n  Then y\n   | b | c |\n",
     "pirate_hdr_doc": "# language: en-pirate\nAhoy matey!: f\n  Heave to: s\n    Gangway! x\n      \"\"\"json\n      {}\n      \"\"\"\n",
 }
-PERTURBING = {"fr_hdr", "open_q", "open_b", "cap", "pending_tags", "bad_lang", "ragged", "deep", "tagws", "pirate_hdr_doc", "q_in_desc"}
+PERTURBING = {"ragged_then_tags", "cap_in_docstring", "fr_hdr", "open_q", "open_b", "cap", "pending_tags", "bad_lang", "ragged", "deep", "tagws", "pirate_hdr_doc", "q_in_desc"}
 
 
 def norm_result(r):
@@ -45,6 +49,17 @@ def norm_result(r):
         return ("err", r[1])
     ids = [int(x) for x in collect_ids(r[1], [])]
     return ("ok", shift_ids(r[1], min(ids)) if ids else r[1])
+
+
+def parse_default(parser, text, stop):
+    """Parser.parse(text) with no matcher argument: the parser's own default matcher"""
+    parser.stop_at_first_error = stop
+    try:
+        return ("ok", parser.parse(text))
+    except gh.CompositeParserException as e:
+        return ("err", [gh.err_tuple(x) for x in e.errors])
+    except gh.ParserException as e:
+        return ("err", [gh.err_tuple(e)])
 
 
 def fresh(text, dflt, stop):
@@ -70,14 +85,16 @@ def check_history(case, stats):
         stats.label("excluded_known_F1")
         return
     parser = gh.Parser()
-    matcher = gh.TokenMatcher(dflt)
+    # own_matcher=False: the parser's default matcher path (parse(text) without a matcher; only meaningful for 'en')
+    own = case.get("own_matcher", True) or dflt != "en"
+    matcher = gh.TokenMatcher(dflt) if own else None
     compiler = gh.Compiler()
     from gherkin.dialect import DIALECTS as LIVE
     dialects_before = copy.deepcopy(LIVE) if case.get("check_dialects") else None
     perturbed = False
     nt = False
     for i, (text, stop) in enumerate(items):
-        r = gh.parse(text, parser=parser, matcher=matcher, stop=stop)
+        r = gh.parse(text, parser=parser, matcher=matcher, stop=stop) if own else parse_default(parser, text, stop)
         got = norm_result(r)
         want = fresh(text, dflt, stop)
         if i > 0 and perturbed:
@@ -112,7 +129,8 @@ def unit_pool(a):
                             continue
                         if k == 3 and a["sample"] and (n // a["nshards"]) % a["sample"] != a["seed"] % a["sample"]:
                             continue
-                        yield {"sub": "history", "default": dflt, "names": list(hist), "items": [[POOL[h], s] for h, s in zip(hist, stops)], "check_dialects": n % 50 == 0}
+                        yield {"sub": "history", "default": dflt, "names": list(hist), "items": [[POOL[h], s] for h, s in zip(hist, stops)], "check_dialects": n % 50 == 0,
+                               "own_matcher": not (dflt == "en" and n % 2)}
     sweep(stats, gen(), check_history)
     return stats
 
@@ -122,13 +140,71 @@ def g_history(s):
     for _ in range(s.rng(2, 5)):
         t = POOL[s.choice(sorted(POOL))] if s.int(3) == 0 else noisy.g_noisy(s)[0]
         items.append([t, s.int(4) == 0])
-    return {"sub": "history", "default": s.choice(["en", "en", "fr", "no"]), "items": items, "check_dialects": True}
+    return {"sub": "history", "default": s.choice(["en", "en", "fr", "no"]), "items": items, "check_dialects": True, "own_matcher": bool(s.int(2))}
 
 
 def unit_sampled(a):
     stats = Stats()
     strat = st.binary(min_size=3500, max_size=3500).map(lambda b: g_history(Src(b)))
     hyp(stats, strat, check_history, a["n"], shard_seed(a["seed"], a["shard"], 15))
+    return stats
+
+
+# ------------------------------------------------------------------ one GherkinEvents for several sources vs a fresh one per source
+def stream_out(ev, text):
+    out = list(ev.enum({"source": {"uri": "u", "data": text, "mediaType": "text/x.cucumber.gherkin+plain"}}))
+    body = [e for e in out if "source" not in e]
+    vals = []
+
+    def walk(x):
+        if isinstance(x, dict):
+            for k, v in x.items():
+                if k in ("id", "astNodeId"):
+                    vals.append(int(v))
+                elif k == "astNodeIds":
+                    vals.extend(int(i) for i in v)
+                else:
+                    walk(v)
+        elif isinstance(x, list):
+            for v in x:
+                walk(v)
+    walk(body)
+    return shift_ids(body, min(vals)) if vals else body
+
+
+def check_stream_history(case, stats):
+    texts = case["texts"]
+    if any(gh.names_existing_path(t) for t in texts):
+        stats.label("excluded_known_F1")
+        return
+    ev = gh.GherkinEvents(gh.GherkinEvents.Options(True, True, True))
+    rejected_before = False
+    nt = False
+    for i, t in enumerate(texts):
+        got = stream_out(ev, t)
+        want = stream_out(gh.GherkinEvents(gh.GherkinEvents.Options(True, True, True)), t)
+        nt = nt or (i > 0 and rejected_before)
+        if got != want:
+            raise Violation(case, "source #%d through a used GherkinEvents differs from a fresh one: %s" % (i, diff_text(got, want, "reused", "fresh")))
+        rejected_before = rejected_before or any("parseError" in e for e in got)
+    stats.case(case, nt, sample={"stream": case.get("names") or [t[:40] for t in texts]}, labels=["len=%d" % len(texts)])
+
+
+def unit_stream_pool(a):
+    stats = Stats()
+    names = sorted(POOL)
+
+    def gen():
+        n = 0
+        for k in a["lengths"]:
+            for hist in itertools.product(names, repeat=k):
+                n += 1
+                if n % a["nshards"] != a["shard"]:
+                    continue
+                if k == 3 and a["sample"] and (n // a["nshards"]) % a["sample"] != a["seed"] % a["sample"]:
+                    continue
+                yield {"sub": "stream-history", "names": list(hist), "texts": [POOL[h] for h in hist]}
+    sweep(stats, gen(), check_stream_history)
     return stats
 
 
@@ -335,21 +411,22 @@ def unit_determinism(a):
 
 
 def replay(case, stats):
-    return {"history": check_history, "reset": check_reset, "schedule": check_schedule, "determinism": check_determinism}[case["sub"]](case, stats)
+    return {"history": check_history, "stream-history": check_stream_history, "reset": check_reset, "schedule": check_schedule, "determinism": check_determinism}[case["sub"]](case, stats)
 
 
 def run(ctx):
     q = ctx.quick
     ns = 16
     ctx.units("determinism-hashseeds", unit_determinism, [{}])
-    ctx.units("pool-pairs-triples", unit_pool, [{"lengths": [2, 3], "sample": 12 if q else 0, "seed": ctx.seed, "shard": i, "nshards": ns} for i in range(ns)], procs=ns)
+    ctx.units("pool-pairs-triples", unit_pool, [{"lengths": [2, 3], "sample": 3 if q else 0, "seed": ctx.seed, "shard": i, "nshards": ns} for i in range(ns)], procs=ns)
+    ctx.units("stream-pool-pairs-triples", unit_stream_pool, [{"lengths": [2, 3], "sample": 0, "seed": ctx.seed, "shard": i, "nshards": ns} for i in range(ns)], procs=ns)
     ctx.units("sampled-histories", unit_sampled, [{"n": 120 if q else 2000, "seed": ctx.seed, "shard": i} for i in range(4 if q else 16)], procs=16)
     ctx.units("matcher-reset", unit_reset, [{"n": 1000 if q else 8000, "seed": ctx.seed, "shard": i} for i in range(2 if q else 16)], procs=16)
     ctx.units("interleavings-exhaustive", unit_schedules, [{"maxreads": 4 if q else 6, "shard": i, "nshards": ns} for i in range(ns)], procs=ns)
     ctx.units("interleavings-sampled", unit_schedules_sampled, [{"n": 60 if q else 800, "seed": ctx.seed, "shard": i} for i in range(4 if q else 16)], procs=16)
     ctx.exhaustive = False
     ctx.extra["exhaustive_part"] = ("all ordered pairs%s of %d state-perturbing documents x 3 matcher defaults x 3 stop-mode patterns; all interleavings of the first %d reads of every pair of %d small documents" % (
-        " (and a 1/12 sample of triples)" if q else " and triples", len(POOL), 4 if q else 6, len(SCHED_DOCS)))
+        " (and a 1/3 sample of triples)" if q else " and triples", len(POOL), 4 if q else 6, len(SCHED_DOCS)))
     ctx.rule = ("histories: documents fed to ONE Parser + ONE TokenMatcher + ONE Compiler (pool: dialect switch by header, unterminated doc strings of both kinds, 11-error cap, pending "
                 "tag run, unknown language, ragged table, deep rule stack, stop-mode failures...) - each result must equal fresh instances modulo the id offset, compile must not "
                 "modify its input, the language table must stay unchanged; matcher level: any sequence of match_* calls then reset() == fresh matcher (classic and Markdown); "
